@@ -7,6 +7,7 @@ package main
 
 import (
 	"fmt"
+	"os"
 	"sort"
 	"strings"
 )
@@ -21,7 +22,9 @@ type LLObj struct {
 
 	ptrAt map[int]llPtrSlot // provenance side table: pointer-carrying values stored at constant offsets
 	lazy  string            // non-empty: nil bytes are materialised on first read as fresh symbols "<lazy>[i]"
-	lenLB int               // known lower bound of a symbolic Len on the current path
+	// lenFacts: terms base+k known to be <= Len on the current path (from the program's own bounds checks and from
+	// earlier accesses); used to discharge bounds obligations syntactically
+	lenFacts []llLenFact
 }
 
 type llPtrSlot struct {
@@ -57,6 +60,35 @@ type llRun struct {
 	nObj    int
 	// ring buffer records reserved and not yet submitted/discarded
 	ringRecs []llRingRec
+	// if-conversion (speculative execution of small side blocks under a guard)
+	specMode int   // 0 off, 1 on, 2 force (also for concrete conditions; testing)
+	guard    *Term // non-nil while a side block is executed speculatively
+	undo     []llUndo
+	nSpec    int
+	// comparisons of packet pointers against the end pointer, by the Bool term they produced
+	lenCmps map[*Term]llLenCmp
+}
+
+type llUndo struct {
+	obj *LLObj
+	idx int
+	old *Term
+}
+
+// llSpecAbort is thrown when a speculatively executed side block needs something that cannot be done under a guard.
+type llSpecAbort struct{ why string }
+
+// llLenCmp: the Bool term is true iff x < Len (strict) or x <= Len (!strict), or the negation thereof (neg).
+type llLenCmp struct {
+	obj    *LLObj
+	x      *Term
+	strict bool
+	neg    bool
+}
+
+type llLenFact struct {
+	base *Term // nil: constant
+	k    uint64
 }
 
 type llFrame struct {
@@ -86,6 +118,9 @@ func (r *llRun) siteKey() string {
 }
 
 func (r *llRun) fail(format string, a ...interface{}) {
+	if r.guard != nil {
+		panic(llSpecAbort{"unsupported construct under guard"})
+	}
 	panic(unsupported("llir: " + fmt.Sprintf(format, a...) + " at " + r.where()))
 }
 
@@ -98,6 +133,9 @@ func (in *Interp) reportC(kind, msg, site string) {
 }
 
 func (r *llRun) violation(kind, msg string) {
+	if r.guard != nil {
+		panic(llSpecAbort{"possible violation under guard"})
+	}
 	full := msg + " at " + r.where()
 	r.in.reportC(kind, full, r.siteKey())
 	panic(pathEnd{EndViolation, full})
@@ -264,6 +302,51 @@ func (o *LLObj) describe() string {
 	return fmt.Sprintf("%s (%d bytes)", o.Name, len(o.Bytes))
 }
 
+// splitOff decomposes an offset term into base + k (base nil: constant).
+func splitOff(t *Term) (*Term, uint64) {
+	if t.IsConst() {
+		return nil, t.V
+	}
+	if t.Op == OpAdd && t.A[1].IsConst() {
+		return t.A[0], t.A[1].V
+	}
+	return t, 0
+}
+
+// lenImplied reports whether base+k <= Len is known on this path without asking the solver.
+func (o *LLObj) lenImplied(base *Term, k uint64) bool {
+	if k >= 1<<31 {
+		return false
+	}
+	for _, f := range o.lenFacts {
+		if f.base == base && f.k >= k {
+			return true
+		}
+	}
+	return false
+}
+
+// addLenFact records base+k <= Len. base must be small (range below 2^40) so that base+k cannot wrap.
+func (o *LLObj) addLenFact(base *Term, k uint64) {
+	if k >= 1<<31 {
+		return
+	}
+	if base != nil {
+		if _, hi, _, ok := termRange(base, 0); !ok || hi >= 1<<40 {
+			return
+		}
+	}
+	for i, f := range o.lenFacts {
+		if f.base == base {
+			if k > f.k {
+				o.lenFacts[i].k = k
+			}
+			return
+		}
+	}
+	o.lenFacts = append(o.lenFacts, llLenFact{base, k})
+}
+
 // access performs the bounds obligation for n bytes at p.
 func (r *llRun) access(p LLVal, n int, write bool) llAcc {
 	in, tc := r.in, r.in.tc
@@ -301,12 +384,15 @@ func (r *llRun) access(p LLVal, n int, write bool) llAcc {
 		if v < 0 || v+int64(n) > int64(limit) {
 			r.violation("oob", fmt.Sprintf("out-of-bounds %s of %d bytes at offset %d of object %s", rw, n, v, o.describe()))
 		}
-		if symLen && int(v)+n > o.lenLB {
+		if symLen && !o.lenImplied(nil, uint64(v)+uint64(n)) {
+			if r.guard != nil {
+				panic(llSpecAbort{"bounds obligation under guard"})
+			}
 			ok := tc.Cmp(OpULe, r.k(uint64(v)+uint64(n), 64), o.Len)
 			if !in.decide(ok) {
 				r.violation("oob", fmt.Sprintf("out-of-bounds %s of %d bytes at offset %d of object %s: beyond its length", rw, n, v, o.describe()))
 			}
-			o.lenLB = int(v) + n
+			o.addLenFact(nil, uint64(v)+uint64(n))
 		}
 		return llAcc{obj: o, off: int(v)}
 	}
@@ -319,16 +405,27 @@ func (r *llRun) access(p LLVal, n int, write bool) llAcc {
 	}
 	var ok *Term
 	end := tc.Bin(OpAdd, off, r.k(uint64(n), 64))
+	base, bk := splitOff(off)
 	switch {
 	case known && hi < 1<<40 && !symLen && hi+uint64(n) <= uint64(limit):
+		ok = tTrue
+	case known && hi < 1<<40 && symLen && o.lenImplied(base, bk+uint64(n)):
 		ok = tTrue
 	case known && hi < 1<<40:
 		ok = tc.Cmp(OpULe, end, sizeT)
 	default:
 		ok = tc.And(tc.Cmp(OpULe, off, sizeT), tc.Cmp(OpULe, end, sizeT))
 	}
-	if !in.decide(ok) {
-		r.violation("oob", fmt.Sprintf("out-of-bounds %s of %d bytes at symbolic offset of object %s", rw, n, o.describe()))
+	if !ok.IsTrue() {
+		if r.guard != nil {
+			panic(llSpecAbort{"bounds obligation under guard"})
+		}
+		if !in.decide(ok) {
+			r.violation("oob", fmt.Sprintf("out-of-bounds %s of %d bytes at symbolic offset of object %s", rw, n, o.describe()))
+		}
+		if symLen && known && hi < 1<<40 {
+			o.addLenFact(base, bk+uint64(n))
+		}
 	}
 	if !known {
 		lo, hi, stride = 0, uint64(limit), 1
@@ -347,8 +444,8 @@ func (r *llRun) access(p LLVal, n int, write bool) llAcc {
 	if len(cands) > 4096 {
 		r.fail("symbolic offset with more than 4096 candidate positions in %s", o.describe())
 	}
-	if symLen && cands[0]+n > o.lenLB {
-		o.lenLB = cands[0] + n
+	if symLen {
+		o.addLenFact(nil, uint64(cands[0]+n))
 	}
 	if len(cands) == 1 {
 		return llAcc{obj: o, off: cands[0]}
@@ -434,6 +531,9 @@ func (r *llRun) store(p LLVal, v LLVal, t *LLType) {
 	}
 	o := a.obj
 	if v.Obj != nil {
+		if r.guard != nil {
+			panic(llSpecAbort{"pointer store under guard"})
+		}
 		if a.sym != nil {
 			r.fail("store of a pointer at a symbolic offset")
 		}
@@ -459,6 +559,22 @@ func (r *llRun) writeAcc(a llAcc, bytes []*Term) {
 	tc := r.in.tc
 	o := a.obj
 	n := len(bytes)
+	if r.guard != nil {
+		// speculative side block: conditional write, logged for undo
+		if a.sym != nil {
+			panic(llSpecAbort{"symbolic-offset store under guard"})
+		}
+		if r.slotsOverlap(o, a.off, n) {
+			panic(llSpecAbort{"store over a stored pointer under guard"})
+		}
+		for j := 0; j < n; j++ {
+			raw := o.Bytes[a.off+j]
+			old := r.byteAt(o, a.off+j)
+			r.undo = append(r.undo, llUndo{o, a.off + j, raw})
+			o.Bytes[a.off+j] = tc.Ite(r.guard, bytes[j], old)
+		}
+		return
+	}
 	if a.sym == nil {
 		r.clearSlots(o, a.off, n)
 		copy(o.Bytes[a.off:], bytes)
@@ -802,6 +918,10 @@ func (r *llRun) cast(op string, v LLVal, from, to *LLType) LLVal {
 			}
 			return r.cast("trunc", v, from, to)
 		}
+		if v.Obj != nil && tw == 64 && v.T.Op == OpExtract && v.T.V == 0 && v.T.Hi == 31 && v.T.A[0] == v.Obj.Len {
+			// the 32-bit data_end field of the context: object lengths are far below 2^32
+			return LLVal{T: v.Obj.Len, Obj: v.Obj}
+		}
 		return LLVal{T: tc.ZExt(v.T, tw), Obj: v.Obj}
 	case "ptrtoint", "trunc":
 		if v.T.W < tw {
@@ -920,7 +1040,41 @@ func (r *llRun) icmp(pred string, a, b LLVal) *Term {
 		case "ult", "ule", "ugt", "uge":
 			pred = "s" + pred[1:]
 		}
-		return cmp(pred, a.T, b.T)
+		res := cmp(pred, a.T, b.T)
+		if o := a.Obj; o.Len != nil && !o.Len.IsConst() && !res.IsConst() && a.T.W == 64 {
+			var info *llLenCmp
+			switch {
+			case b.T == o.Len: // x pred Len
+				switch pred {
+				case "sle":
+					info = &llLenCmp{o, a.T, false, false}
+				case "slt":
+					info = &llLenCmp{o, a.T, true, false}
+				case "sgt":
+					info = &llLenCmp{o, a.T, false, true}
+				case "sge":
+					info = &llLenCmp{o, a.T, true, true}
+				}
+			case a.T == o.Len: // Len pred x
+				switch pred {
+				case "sle":
+					info = &llLenCmp{o, b.T, true, true}
+				case "slt":
+					info = &llLenCmp{o, b.T, false, true}
+				case "sgt":
+					info = &llLenCmp{o, b.T, true, false}
+				case "sge":
+					info = &llLenCmp{o, b.T, false, false}
+				}
+			}
+			if info != nil {
+				if r.lenCmps == nil {
+					r.lenCmps = map[*Term]llLenCmp{}
+				}
+				r.lenCmps[res] = *info
+			}
+		}
+		return res
 	case a.Obj != nil && b.Obj != nil:
 		switch pred {
 		case "eq":
@@ -969,6 +1123,9 @@ func (r *llRun) selectVal(fr *llFrame, ins *LLInstr, c *Term, a, b LLVal) LLVal 
 		return LLVal{T: tc.Ite(c, a.T, b.T), Obj: a.Obj}
 	}
 	// different provenance: fork
+	if r.guard != nil {
+		panic(llSpecAbort{"select needs a fork under guard"})
+	}
 	r.countSym(fr, ins)
 	if r.in.decide(c) {
 		return a
@@ -1007,36 +1164,30 @@ func (r *llRun) callFunc(f *LLFunc, args []LLVal) LLVal {
 	saveCur := r.cur
 	defer func() { r.cur = saveCur }()
 	in := r.in
-	tc := in.tc
 	var prev *LLBlock
 	blk := f.Blocks[0]
+	skipPhis := false
 	for {
+		if r.env.Cover != nil {
+			r.env.Cover[f.Name+":"+blk.Name] = true
+		}
 		// phis read their inputs simultaneously
 		nphi := 0
 		for nphi < len(blk.Instrs) && blk.Instrs[nphi].Op == "phi" {
 			nphi++
 		}
-		if nphi > 0 {
+		if nphi > 0 && !skipPhis {
 			tmp := make([]LLVal, nphi)
 			for i := 0; i < nphi; i++ {
 				ins := blk.Instrs[i]
 				r.cur = ins
-				found := false
-				for j, pb := range ins.Blocks {
-					if pb == prev {
-						tmp[i] = r.eval(fr, ins.Ops[j])
-						found = true
-						break
-					}
-				}
-				if !found {
-					r.fail("phi has no incoming value for predecessor")
-				}
+				tmp[i] = r.phiIncoming(fr, ins, prev)
 			}
 			for i := 0; i < nphi; i++ {
 				fr.regs[blk.Instrs[i].ResSlot] = tmp[i]
 			}
 		}
+		skipPhis = false
 		var next *LLBlock
 		for _, ins := range blk.Instrs[nphi:] {
 			r.cur = ins
@@ -1046,136 +1197,13 @@ func (r *llRun) callFunc(f *LLFunc, args []LLVal) LLVal {
 			if in.path.steps > in.cfg.MaxSteps {
 				panic(pathEnd{EndSteps, "step limit exceeded in bpf function " + f.Name})
 			}
-			set := func(v LLVal) {
-				if ins.ResSlot >= 0 {
-					fr.regs[ins.ResSlot] = v
-				}
+			nb, ret, isRet, merged := r.exec(fr, ins)
+			if isRet {
+				return ret
 			}
-			switch ins.Op {
-			case "alloca":
-				n := 1
-				if len(ins.Ops) == 1 {
-					c := r.eval(fr, ins.Ops[0])
-					n = int(in.concretize(c.T, "alloca count"))
-				}
-				name := f.Name + ".%" + ins.Res
-				o := r.newObj(name, ins.Ty2.Size()*n, "uninit."+name)
-				set(LLVal{T: r.k(0, 64), Obj: o})
-			case "load":
-				set(r.load(r.eval(fr, ins.Ops[0]), ins.Type))
-			case "store":
-				r.store(r.eval(fr, ins.Ops[1]), r.eval(fr, ins.Ops[0]), ins.Type)
-			case "getelementptr":
-				idx := make([]LLVal, len(ins.Ops)-1)
-				for i, o := range ins.Ops[1:] {
-					idx[i] = r.eval(fr, o)
-				}
-				set(r.gep(r.eval(fr, ins.Ops[0]), ins.Ty2, idx))
-			case "bitcast", "inttoptr", "ptrtoint", "trunc", "zext", "sext":
-				set(r.cast(ins.Op, r.eval(fr, ins.Ops[0]), ins.Ty2, ins.Type))
-			case "icmp":
-				set(LLVal{T: r.fromBool(r.icmp(ins.Pred, r.eval(fr, ins.Ops[0]), r.eval(fr, ins.Ops[1])))})
-			case "select":
-				c := r.eval(fr, ins.Ops[0])
-				set(r.selectVal(fr, ins, r.toBool(c.T), r.eval(fr, ins.Ops[1]), r.eval(fr, ins.Ops[2])))
-			case "br":
-				if len(ins.Blocks) == 1 {
-					next = ins.Blocks[0]
-				} else {
-					c := r.toBool(r.eval(fr, ins.Ops[0]).T)
-					if !c.IsConst() {
-						r.countSym(fr, ins)
-					}
-					if in.decide(c) {
-						next = ins.Blocks[0]
-					} else {
-						next = ins.Blocks[1]
-					}
-				}
-			case "switch":
-				v := r.eval(fr, ins.Ops[0])
-				if v.Obj != nil {
-					r.fail("switch on a pointer-derived value")
-				}
-				next = ins.Blocks[0]
-				if !v.T.IsConst() {
-					r.countSym(fr, ins)
-				}
-				for i, cv := range ins.Cases {
-					if in.decide(tc.Eq(v.T, r.k(cv, v.T.W))) {
-						next = ins.Blocks[i+1]
-						break
-					}
-				}
-			case "ret":
-				if len(ins.Ops) == 1 {
-					return r.eval(fr, ins.Ops[0])
-				}
-				return LLVal{}
-			case "unreachable":
-				r.violation("unreachable", "execution reached an 'unreachable' instruction")
-			case "fence":
-			case "call":
-				args := make([]LLVal, len(ins.Ops))
-				for i, o := range ins.Ops {
-					if o.Type.Kind == LLMetaT {
-						continue
-					}
-					args[i] = r.eval(fr, o)
-				}
-				set(r.call(ins, args))
-				r.cur = ins
-			case "atomicrmw":
-				p := r.eval(fr, ins.Ops[0])
-				v := r.eval(fr, ins.Ops[1])
-				old := r.load(p, ins.Type)
-				var nv LLVal
-				switch ins.Pred {
-				case "add", "sub", "and", "or", "xor":
-					nv = r.binop(ins.Pred, old, v)
-				case "xchg":
-					nv = v
-				case "max", "min", "umax", "umin":
-					if old.Obj != nil || v.Obj != nil {
-						r.fail("atomicrmw %s on pointers", ins.Pred)
-					}
-					o := map[string]Op{"max": OpSLt, "min": OpSLt, "umax": OpULt, "umin": OpULt}[ins.Pred]
-					c := tc.Cmp(o, old.T, v.T)
-					if strings.HasSuffix(ins.Pred, "max") {
-						nv = LLVal{T: tc.Ite(c, v.T, old.T)}
-					} else {
-						nv = LLVal{T: tc.Ite(c, old.T, v.T)}
-					}
-				default:
-					r.fail("atomicrmw operation %q", ins.Pred)
-				}
-				r.store(p, nv, ins.Type)
-				set(old)
-			case "cmpxchg":
-				p := r.eval(fr, ins.Ops[0])
-				cv := r.eval(fr, ins.Ops[1])
-				nv := r.eval(fr, ins.Ops[2])
-				old := r.load(p, ins.Ty2)
-				eq := r.icmp("eq", old, cv)
-				r.store(p, r.selectVal(fr, ins, eq, nv, old), ins.Ty2)
-				set(LLVal{Agg: []LLVal{old, {T: r.fromBool(eq)}}})
-			case "extractvalue":
-				v := r.eval(fr, ins.Ops[0])
-				for _, ix := range ins.Idx {
-					if ix >= len(v.Agg) {
-						r.fail("extractvalue index out of range")
-					}
-					v = v.Agg[ix]
-				}
-				set(v)
-			case "insertvalue":
-				set(r.insertValue(r.eval(fr, ins.Ops[0]), r.eval(fr, ins.Ops[1]), ins.Idx))
-			default:
-				if _, ok := llBinOpMap[ins.Op]; ok {
-					set(r.binop(ins.Op, r.eval(fr, ins.Ops[0]), r.eval(fr, ins.Ops[1])))
-				} else {
-					r.fail("instruction %q", ins.Op)
-				}
+			if nb != nil {
+				next, skipPhis = nb, merged
+				break
 			}
 		}
 		if next == nil {
@@ -1183,6 +1211,256 @@ func (r *llRun) callFunc(f *LLFunc, args []LLVal) LLVal {
 		}
 		prev, blk = blk, next
 	}
+}
+
+func (r *llRun) phiIncoming(fr *llFrame, ins *LLInstr, from *LLBlock) LLVal {
+	for j, pb := range ins.Blocks {
+		if pb == from {
+			return r.eval(fr, ins.Ops[j])
+		}
+	}
+	r.fail("phi has no incoming value for predecessor")
+	return LLVal{}
+}
+
+// trySpec executes the side block(s) below a conditional branch under a guard and merges at the join block
+// (if-conversion). It returns false, with all effects undone, when that is not possible; the caller then forks.
+func (r *llRun) trySpec(fr *llFrame, br *LLInstr, c *Term) (ok bool) {
+	sp := br.Spec
+	tc := r.in.tc
+	saveUndo := r.undo
+	r.undo = nil
+	saveCur := r.cur
+	defer func() {
+		r.guard = nil
+		r.cur = saveCur
+		if rec := recover(); rec != nil {
+			if _, isAbort := rec.(llSpecAbort); !isAbort {
+				panic(rec)
+			}
+			ok = false
+		}
+		if !ok {
+			for i := len(r.undo) - 1; i >= 0; i-- {
+				u := r.undo[i]
+				u.obj.Bytes[u.idx] = u.old
+			}
+		}
+		r.undo = saveUndo
+	}()
+	run := func(b *LLBlock, g *Term) {
+		if b == nil {
+			return
+		}
+		r.guard = g
+		for _, ins := range b.Instrs[:len(b.Instrs)-1] {
+			if ins.Op == "phi" {
+				panic(llSpecAbort{"phi in side block"})
+			}
+			r.cur = ins
+			r.steps++
+			r.in.path.steps++
+			r.in.instrs++
+			if nb, _, isRet, _ := r.exec(fr, ins); nb != nil || isRet {
+				panic(llSpecAbort{"control flow in side block"})
+			}
+		}
+		r.guard = nil
+	}
+	run(sp.SideT, c)
+	run(sp.SideF, tc.Not(c))
+	// merge the join's phis
+	fromT, fromF := sp.SideT, sp.SideF
+	if fromT == nil {
+		fromT = br.Block
+	}
+	if fromF == nil {
+		fromF = br.Block
+	}
+	r.guard = tTrue // evaluation of phi operands must not fork or fail either
+	var vals []LLVal
+	var slots []int
+	for _, ins := range sp.Join.Instrs {
+		if ins.Op != "phi" {
+			break
+		}
+		r.cur = ins
+		vt, vf := r.phiIncoming(fr, ins, fromT), r.phiIncoming(fr, ins, fromF)
+		if vt.Agg != nil || vf.Agg != nil || vt.Obj != vf.Obj || vt.T.W != vf.T.W {
+			panic(llSpecAbort{"phi of values with different provenance"})
+		}
+		vals = append(vals, LLVal{T: tc.Ite(c, vt.T, vf.T), Obj: vt.Obj})
+		slots = append(slots, ins.ResSlot)
+	}
+	r.guard = nil
+	for i, sl := range slots {
+		fr.regs[sl] = vals[i]
+	}
+	if r.env.Cover != nil {
+		for _, b := range []*LLBlock{sp.SideT, sp.SideF} {
+			if b != nil {
+				r.env.Cover[fr.fn.Name+":"+b.Name] = true
+			}
+		}
+	}
+	r.nSpec++
+	return true
+}
+
+// exec executes one non-phi instruction. next != nil: control transfers to that block (merged: its phis have already
+// been assigned by if-conversion).
+func (r *llRun) exec(fr *llFrame, ins *LLInstr) (next *LLBlock, ret LLVal, isRet bool, merged bool) {
+	in, tc := r.in, r.in.tc
+	f := fr.fn
+	set := func(v LLVal) {
+		if ins.ResSlot >= 0 {
+			fr.regs[ins.ResSlot] = v
+		}
+	}
+	switch ins.Op {
+	case "alloca":
+		n := 1
+		if len(ins.Ops) == 1 {
+			c := r.eval(fr, ins.Ops[0])
+			n = int(in.concretize(c.T, "alloca count"))
+		}
+		name := f.Name + ".%" + ins.Res
+		o := r.newObj(name, ins.Ty2.Size()*n, "uninit."+name)
+		set(LLVal{T: r.k(0, 64), Obj: o})
+	case "load":
+		set(r.load(r.eval(fr, ins.Ops[0]), ins.Type))
+	case "store":
+		r.store(r.eval(fr, ins.Ops[1]), r.eval(fr, ins.Ops[0]), ins.Type)
+	case "getelementptr":
+		idx := make([]LLVal, len(ins.Ops)-1)
+		for i, o := range ins.Ops[1:] {
+			idx[i] = r.eval(fr, o)
+		}
+		set(r.gep(r.eval(fr, ins.Ops[0]), ins.Ty2, idx))
+	case "bitcast", "inttoptr", "ptrtoint", "trunc", "zext", "sext":
+		set(r.cast(ins.Op, r.eval(fr, ins.Ops[0]), ins.Ty2, ins.Type))
+	case "icmp":
+		set(LLVal{T: r.fromBool(r.icmp(ins.Pred, r.eval(fr, ins.Ops[0]), r.eval(fr, ins.Ops[1])))})
+	case "select":
+		c := r.eval(fr, ins.Ops[0])
+		set(r.selectVal(fr, ins, r.toBool(c.T), r.eval(fr, ins.Ops[1]), r.eval(fr, ins.Ops[2])))
+	case "br":
+		if len(ins.Blocks) == 1 {
+			return ins.Blocks[0], LLVal{}, false, false
+		}
+		c := r.toBool(r.eval(fr, ins.Ops[0]).T)
+		if ins.Spec != nil && r.guard == nil && ((r.specMode == 1 && !c.IsConst()) || r.specMode == 2) {
+			c2 := c
+			if !c2.IsConst() {
+				c2 = in.simp(c2)
+			}
+			if (r.specMode == 2 || !c2.IsConst()) && r.trySpec(fr, ins, c2) {
+				return ins.Spec.Join, LLVal{}, false, true
+			}
+		}
+		if !c.IsConst() {
+			r.countSym(fr, ins)
+		}
+		taken := in.decide(c)
+		if info, ok := r.lenCmps[c]; ok && taken != info.neg {
+			// the program has established x <= Len (x < Len when strict)
+			base, k := splitOff(info.x)
+			if info.strict {
+				k++
+			}
+			info.obj.addLenFact(base, k)
+		}
+		if taken {
+			return ins.Blocks[0], LLVal{}, false, false
+		}
+		return ins.Blocks[1], LLVal{}, false, false
+	case "switch":
+		v := r.eval(fr, ins.Ops[0])
+		if v.Obj != nil {
+			r.fail("switch on a pointer-derived value")
+		}
+		next = ins.Blocks[0]
+		if !v.T.IsConst() {
+			r.countSym(fr, ins)
+		}
+		for i, cv := range ins.Cases {
+			if in.decide(tc.Eq(v.T, r.k(cv, v.T.W))) {
+				next = ins.Blocks[i+1]
+				break
+			}
+		}
+		return next, LLVal{}, false, false
+	case "ret":
+		if len(ins.Ops) == 1 {
+			return nil, r.eval(fr, ins.Ops[0]), true, false
+		}
+		return nil, LLVal{}, true, false
+	case "unreachable":
+		r.violation("unreachable", "execution reached an 'unreachable' instruction")
+	case "fence":
+	case "call":
+		args := make([]LLVal, len(ins.Ops))
+		for i, o := range ins.Ops {
+			if o.Type.Kind == LLMetaT {
+				continue
+			}
+			args[i] = r.eval(fr, o)
+		}
+		set(r.call(ins, args))
+		r.cur = ins
+	case "atomicrmw":
+		p := r.eval(fr, ins.Ops[0])
+		v := r.eval(fr, ins.Ops[1])
+		old := r.load(p, ins.Type)
+		var nv LLVal
+		switch ins.Pred {
+		case "add", "sub", "and", "or", "xor":
+			nv = r.binop(ins.Pred, old, v)
+		case "xchg":
+			nv = v
+		case "max", "min", "umax", "umin":
+			if old.Obj != nil || v.Obj != nil {
+				r.fail("atomicrmw %s on pointers", ins.Pred)
+			}
+			o := map[string]Op{"max": OpSLt, "min": OpSLt, "umax": OpULt, "umin": OpULt}[ins.Pred]
+			c := tc.Cmp(o, old.T, v.T)
+			if strings.HasSuffix(ins.Pred, "max") {
+				nv = LLVal{T: tc.Ite(c, v.T, old.T)}
+			} else {
+				nv = LLVal{T: tc.Ite(c, old.T, v.T)}
+			}
+		default:
+			r.fail("atomicrmw operation %q", ins.Pred)
+		}
+		r.store(p, nv, ins.Type)
+		set(old)
+	case "cmpxchg":
+		p := r.eval(fr, ins.Ops[0])
+		cv := r.eval(fr, ins.Ops[1])
+		nv := r.eval(fr, ins.Ops[2])
+		old := r.load(p, ins.Ty2)
+		eq := r.icmp("eq", old, cv)
+		r.store(p, r.selectVal(fr, ins, eq, nv, old), ins.Ty2)
+		set(LLVal{Agg: []LLVal{old, {T: r.fromBool(eq)}}})
+	case "extractvalue":
+		v := r.eval(fr, ins.Ops[0])
+		for _, ix := range ins.Idx {
+			if ix >= len(v.Agg) {
+				r.fail("extractvalue index out of range")
+			}
+			v = v.Agg[ix]
+		}
+		set(v)
+	case "insertvalue":
+		set(r.insertValue(r.eval(fr, ins.Ops[0]), r.eval(fr, ins.Ops[1]), ins.Idx))
+	default:
+		if _, ok := llBinOpMap[ins.Op]; ok {
+			set(r.binop(ins.Op, r.eval(fr, ins.Ops[0]), r.eval(fr, ins.Ops[1])))
+		} else {
+			r.fail("instruction %q", ins.Op)
+		}
+	}
+	return nil, LLVal{}, false, false
 }
 
 func (r *llRun) insertValue(agg, v LLVal, idx []int) LLVal {
@@ -1296,6 +1574,7 @@ type BPFRun struct {
 	Packet  *LLObj // after the run
 	Env     *LLEnv
 	Steps   int
+	Merged  int // number of branches handled by if-conversion instead of forking
 }
 
 // offsets of the context fields used by the model (uapi linux/bpf.h); checked against the IR struct types
@@ -1359,7 +1638,16 @@ func (in *Interp) RunBPF(prog, entry string, kind string, env *LLEnv) (res *BPFR
 	if lerr != nil {
 		panic(unsupported("llir: " + lerr.Error()))
 	}
-	r := &llRun{in: in, mod: mod, env: env, kind: kind, globals: map[string]*LLObj{}}
+	r := &llRun{in: in, mod: mod, env: env, kind: kind, globals: map[string]*LLObj{}, specMode: 1}
+	switch os.Getenv("VERIF_LLIR_SPEC") {
+	case "off":
+		r.specMode = 0
+	case "force":
+		r.specMode = 2
+	}
+	if env != nil && env.NoIfConversion {
+		r.specMode = 0
+	}
 	defer func() {
 		if rec := recover(); rec != nil {
 			if e, ok := rec.(llErr); ok {
@@ -1387,7 +1675,7 @@ func (in *Interp) RunBPF(prog, entry string, kind string, env *LLEnv) (res *BPFR
 		r.fail("packet length must be a 64-bit term")
 	}
 	in.assume(tc.Cmp(OpULe, pkt.Len, tc.Const(uint64(len(pkt.Bytes)), 64)))
-	pkt.lenLB = 0
+	pkt.lenFacts = nil
 	// maps: complete the environment from the definitions
 	if env.Maps == nil {
 		env.Maps = map[string]*LLMap{}
@@ -1470,7 +1758,7 @@ func (in *Interp) RunBPF(prog, entry string, kind string, env *LLEnv) (res *BPFR
 	if ret.T == nil || ret.Obj != nil {
 		r.fail("entry point returned a non-integer value")
 	}
-	return &BPFRun{Verdict: ret.T, Packet: pkt, Env: env, Steps: r.steps}, nil
+	return &BPFRun{Verdict: ret.T, Packet: pkt, Env: env, Steps: r.steps, Merged: r.nSpec}, nil
 }
 
 // sortedMapNames is used by reports.
